@@ -273,12 +273,20 @@ impl<S: BuildHasher + Clone + 'static> PolicyInner<S> {
     pub(crate) fn verif_window(&self) -> (usize, usize) {
         self.admit.verif_window()
     }
+
+    pub(crate) fn verif_doorkeeper_has(&self, k: u64) -> bool {
+        self.admit.verif_doorkeeper_has(k)
+    }
 }
 
 #[cfg(transparencies_stretto_verif)]
 impl TinyLFU {
     pub(crate) fn verif_window(&self) -> (usize, usize) {
         (self.w, self.samples)
+    }
+
+    pub(crate) fn verif_doorkeeper_has(&self, k: u64) -> bool {
+        self.doorkeeper.contains(k)
     }
 }
 
